@@ -322,4 +322,205 @@ def cxHolds (p1 p2 : List Nat) (r : Option (List Nat × List Nat)) : Bool :=
     | none => false
   else true
 
+/-! ## 4. Components as functions of explicit witnesses (DESIGN §5.5)
+
+`execute` outcomes: `ok v`, `err` (an `ensure!`/`Err` return), `panic`. -/
+
+inductive Outcome (β : Type) where
+  | ok (v : β) | err | panic
+  deriving Repr, BEq, DecidableEq
+
+/-- Sequencing of per-solution outcomes over a population (the `for solution in …` loops). -/
+def Outcome.mapPop {β γ : Type} (f : β → γ → Outcome β) : List β → List γ → Outcome (List β)
+  | x :: xs, w :: ws =>
+    match f x w with
+    | .ok y =>
+      match Outcome.mapPop f xs ws with
+      | .ok ys => .ok (y :: ys)
+      | .err => .err
+      | .panic => .panic
+    | .err => .err
+    | .panic => .panic
+  | xs, _ => .ok xs
+
+/-! ### 4.1 rate-gated real / bit mutations (`if rng.gen_bool(rm) { *x = … }`) -/
+
+/-- The gate fired on the positions of `mask`; there the coordinate is replaced by `vals`. -/
+def gated : List Bool → List α → List α → List α
+  | m :: ms, v :: vs, x :: xs => (if m then v else x) :: gated ms vs xs
+  | _, _, xs => xs
+
+/-- `gen_bool(0)` never fires, `gen_bool(1)` always fires. -/
+def maskLegal (rmZero rmOne : Bool) (mask : List Bool) (n : Nat) : Bool :=
+  mask.length == n && (!rmZero || mask.all (!·)) && (!rmOne || mask.all id)
+
+/-- `NormalMutation` / `UniformMutation`: `*x += delta`. -/
+def addDeltas {F : Type} [Add F] (mask : List Bool) (deltas sol : List F) : List F :=
+  gated mask (List.zipWith (· + ·) sol deltas) sol
+
+/-- `BitFlipMutation`: `*x = !*x`. -/
+def bitFlip (mask : List Bool) (sol : List Bool) : List Bool := gated mask (sol.map (!·)) sol
+
+/-- `PartialRandomSpread` / `PartialRandomBitstring`: `*x = fresh value`. -/
+def resample (mask : List Bool) (fresh sol : List α) : List α := gated mask fresh sol
+
+/-- Guards of the rate-gated components: invalid strength (`Normal::new` / `bound >= 0`) or rate ∉ [0,1] is `Err`. -/
+def rateGated {β : Type} (strengthValid rateValid : Bool) (result : β) : Outcome β :=
+  if !strengthValid then .err else if !rateValid then .err else .ok result
+
+/-! ### 4.2 permutation mutations -/
+
+/-- `SwapMutation::execute` on one solution; witness = the `num_swap` sampled indices. -/
+def swapMutation (numSwap : Nat) (sol : List α) (w : List Nat) : Outcome (List α) :=
+  if sol.length < numSwap then .err
+  else match circularSwap sol w with
+    | some r => .ok r
+    | none => .panic
+
+def swapLegal (numSwap n : Nat) (w : List Nat) : Bool :=
+  w.length == numSwap && nodupNat w && allBelow w n
+
+/-- `solution[start..end].reverse()`. -/
+def reverseSlice (sol : List α) (s e : Nat) : Option (List α) :=
+  if e < s ∨ sol.length < e then none
+  else some (sol.take s ++ ((sol.drop s).take (e - s)).reverse ++ sol.drop e)
+
+/-- `InversionMutation`: `choose_multiple(2)` yields two indices only if the solution has two
+positions; otherwise the `if let [start, end]` does not match and nothing happens. -/
+def inversionMutation (sol : List α) (w : Option (Nat × Nat)) : Option (List α) :=
+  match w with
+  | none => some sol
+  | some (s, e) => reverseSlice sol s e
+
+def inversionLegal (n : Nat) (w : Option (Nat × Nat)) : Bool :=
+  match w with
+  | none => n < 2
+  | some (s, e) => decide (2 ≤ n) && decide (s < e) && decide (e < n)
+
+/-- `InsertionMutation`: `translocate_slice(solution, element..element + 1, index)`. -/
+def insertionMutation (sol : List α) (w : Nat × Nat) : Option (List α) :=
+  translocateSlice sol w.1 (w.1 + 1) w.2
+
+def insertionLegal (n : Nat) (w : Nat × Nat) : Bool := decide (w.1 < n) && decide (w.2 < n)
+
+/-- `TranslocationMutation`: two sorted distinct indices and `index ∈ 0..=len-(end-start)`. -/
+def translocationMutation (sol : List α) (w : Option (Nat × Nat × Nat)) : Option (List α) :=
+  match w with
+  | none => some sol
+  | some (s, e, i) => translocateSlice sol s e i
+
+def translocationLegal (n : Nat) (w : Option (Nat × Nat × Nat)) : Bool :=
+  match w with
+  | none => n < 2
+  | some (s, e, i) => decide (2 ≤ n) && decide (s < e) && decide (e < n) && decide (i + (e - s) ≤ n)
+
+/-- `slice.shuffle(rng)` as a function of its witness: `σ[k]` = source position of the element at `k`. -/
+def permuteBy (σ : List Nat) (l : List α) : Option (List α) := σ.mapM (l[·]?)
+
+/-- `ScrambleMutation`: `if gen_bool(rm) { solution.shuffle(rng) }`. -/
+def scrambleMutation (sol : List α) (σ : List Nat) : Option (List α) := permuteBy σ sol
+
+def scrambleLegal (rmZero : Bool) (n : Nat) (σ : List Nat) : Bool :=
+  σ.isPerm (List.range n) && (!rmZero || σ == List.range n)
+
+/-! ### 4.3 the `recombination` frame (recombination/mod.rs) -/
+
+inductive OptPair (β : Type) where
+  | none | single (c : β) | both (c1 c2 : β)
+  deriving Repr, BEq, DecidableEq
+
+/-- `OptionalPair::from_pair`. -/
+def OptPair.fromPair {β : Type} (c : β × β) (both : Bool) : OptPair β :=
+  if both then .both c.1 c.2 else .single c.1
+
+/-- `if rng.gen::<f64>() <= self.pc`: the crossover decision for the uniform draw `u ∈ [0,1)`. -/
+def crossedBy {F : Type} [LE F] [DecidableLE F] (u pc : F) : Bool := decide (u ≤ pc)
+
+/-- One `recombine` call: the uniform draw `u`; crossover happens iff `u <= pc` (`crossed`);
+a panicking crossover helper is `none`. -/
+def recombine {β : Type} (crossed : Bool) (children : Option (β × β)) (insertBoth : Bool) : Option (OptPair β) :=
+  if crossed then children.map (OptPair.fromPair · insertBoth) else some .none
+
+/-- `for chunk in solutions.chunks(2)`: a pair yields both parents / one child / two children, an
+odd remainder passes through. `rs` = the results of the successive `recombine` calls. -/
+def frame {β : Type} : List β → List (OptPair β) → List β
+  | p1 :: p2 :: rest, r :: rs =>
+    match r with
+    | .none => p1 :: p2 :: frame rest rs
+    | .single c => c :: frame rest rs
+    | .both c1 c2 => c1 :: c2 :: frame rest rs
+  | ps, _ => ps
+
+/-- Number of `recombine` calls on a population of `n` parents. -/
+def numPairs (n : Nat) : Nat := n / 2
+
+def countNone {β : Type} : List (OptPair β) → Nat
+  | [] => 0
+  | .none :: rs => countNone rs + 1
+  | _ :: rs => countNone rs
+def countSingle {β : Type} : List (OptPair β) → Nat
+  | [] => 0
+  | .single _ :: rs => countSingle rs + 1
+  | _ :: rs => countSingle rs
+def countBoth {β : Type} : List (OptPair β) → Nat
+  | [] => 0
+  | .both _ _ :: rs => countBoth rs + 1
+  | _ :: rs => countBoth rs
+
+/-! ### 4.4 Differential evolution -/
+
+section DE
+variable {F : Type} [Add F] [Sub F] [Mul F]
+
+/-- `for (x, s1, s2) in multizip((base.iter_mut(), s1, s2)) { *x += f * (s1 - s2) }`. -/
+def deAdd (f : F) : List F → List F → List F → List F
+  | x :: xs, a :: as, b :: bs => (x + f * (a - b)) :: deAdd f xs as bs
+  | xs, _, _ => xs
+
+/-- The pairs of the remainder of a chunk, applied to the base in order. -/
+def dePairs (f : F) (base : List F) : List (List F) → List F
+  | s1 :: s2 :: rest => dePairs f (deAdd f base s1 s2) rest
+  | _ => base
+
+/-- `chunks_exact_mut(size)`: one mutated base per full chunk (`fuel` ≥ number of chunks). -/
+def deChunks (f : F) (size : Nat) : Nat → List (List F) → List (List F)
+  | 0, _ => []
+  | fuel + 1, pop =>
+    if pop.length < size ∨ size = 0 then []
+    else
+      match pop.take size with
+      | base :: remainder => dePairs f base remainder :: deChunks f size fuel (pop.drop size)
+      | [] => []
+
+/-- `DEMutation::execute`: `Err` unless the population length is a multiple of `2y+1`; afterwards
+`retain(i % size == 0)` keeps exactly the mutated bases. -/
+def deMutation (y : Nat) (f : F) (pop : List (List F)) : Outcome (List (List F)) :=
+  let size := y * 2 + 1
+  if pop.length % size ≠ 0 then .err else .ok (deChunks f size pop.length pop)
+end DE
+
+/-- `DEMutation::from_params`: `y ∈ {1,2}` and `f ∈ [0,2]`. -/
+def deCtorOk (y : Nat) (fInRange : Bool) : Bool := (y == 1 || y == 2) && fInRange
+
+/-- DE crossovers write `mutation[i] = base[i]` on the positions of `mask`
+(indexing `0..dimension`: a solution shorter than the dimension panics). -/
+def deCross (dim : Nat) (mask : List Bool) (mutant base : List α) : Option (List α) :=
+  if mutant.length < dim ∨ base.length < dim then none
+  else some (gated mask base mutant)
+
+/-- Binomial: the forced index guarantees at least one position; `pc = 1` takes all, `pc = 0`
+(all draws positive) only the forced one. -/
+def deBinLegal (pcZero pcOne : Bool) (dim : Nat) (mask : List Bool) : Bool :=
+  mask.length == dim && mask.any id && (!pcOne || mask.all id) && (!pcZero || mask.count true == 1)
+
+/-- The positions `start, start+1, … (mod dim)` of a cyclic run of length `run`. -/
+def cyclicRun (dim start run : Nat) : List Bool :=
+  (List.range dim).map fun i => decide ((i + dim - start) % dim < run)
+
+/-- Exponential: a cyclic run of length `1..=dim` from the sampled index; `pc = 0` stops after one,
+`pc = 1` only when the run closes. -/
+def deExpLegal (pcZero pcOne : Bool) (dim : Nat) (mask : List Bool) : Bool :=
+  (List.range dim).any fun start => (List.range dim).any fun r =>
+    mask == cyclicRun dim start (r + 1) && (!pcOne || r + 1 == dim) && (!pcZero || r == 0)
+
 end MahfModel.Variation
